@@ -15,7 +15,11 @@ TwistedServer.sendPackets -> reactor.callFromThread(sendPacketsUnsafe) (stub rea
 write() RAISES for destinations the OS refuses (port 0 as srvsim.MockSock; limited broadcast and class E when this kernel
 refuses them), as twisted's udp.Port.write does.  Well-formed client hellos forged from such addresses (and from ordinary
 ones) arrive in the very ticks in which established echo clients have something to be sent.  Oracle: every message of an
-established honest client is echoed, the loop stays alive, nothing is written to a blocked IP."""
+established honest client is echoed, the loop stays alive, nothing is written to a blocked IP.
+blocklist_change_world: the block list is changed on the RUNNING server (setBlockList with a new set / the installed set mutated;
+from the harness thread, from handler.update, from handle_message) behind every front door; per-datagram queue observation
+(srvx feed probe) against the list computed from the operations, unit srv_gate with the list in force per datagram, srv_run on the
+script with the per-step list applied."""
 import struct
 from harness import lib
 from harness import connsim as S
